@@ -920,6 +920,7 @@ pub async fn deleverage(w: &mut World, m: &mut Mon, r: &mut R, lev: &Lev, g: usi
     // the first forced withdrawal of a new day is limited like any other: a day later, one bracket
     // whose withdrawal alone is worth more than a small daily limit
     if limit != 0 && limit != u32::MAX {
+      'first: {
         w.chain.advance(pick(r, &[86_400i64, 86_401, 200_000]));
         w.refresh_oracles();
         let risk_metas = w.risk_metas(lev.acct, None, None);
@@ -937,7 +938,7 @@ pub async fn deleverage(w: &mut World, m: &mut Mon, r: &mut R, lev: &Lev, g: usi
             (Some(pc), Some(pd)) if pc > 0.0 && pd > 0.0 && rp as f64 * pd > limit as f64 * 1.5 => ((rp as f64 * pd / pc) as u64).min(pos),
             _ => {
                 m.r.count("scen.first_withdrawal_of_a_new_day_not_above_limit");
-                return;
+                break 'first;
             }
         };
         let ixs = vec![
@@ -949,6 +950,47 @@ pub async fn deleverage(w: &mut World, m: &mut Mon, r: &mut R, lev: &Lev, g: usi
         let o = w.exec(m, &ixs, &[&risk]).await;
         m.r.count("scen.first_withdrawal_of_a_new_day_attempts");
         m.r.count(&if o.ok() { "scen.first_withdrawal_of_a_new_day_committed".to_string() } else { format!("scen.first_withdrawal_of_a_new_day_rejected/{}", o.custom_code().map(|c| c.to_string()).unwrap_or_else(|| "other".into())) });
+      }
+    }
+    // a forced withdrawal of a whole position (withdraw-all: the amount argument is ignored, what
+    // counts is what leaves the vault): the account gets a second, small collateral worth about
+    // twice the daily limit, and a day later the risk admin takes all of it in one bracket
+    if limit != 0 && limit <= 1000 {
+        let c2s: Vec<usize> = (0..w.banks.len()).filter(|b| *b != lev.ca && *b != lev.db && w.banks[*b].group == g && usable_collateral(w, *b) && unit_usd_low(w, *b).map(|p| p > 0.0).unwrap_or(false)).collect();
+        if c2s.is_empty() {
+            m.r.count("scen.deleverage_withdraw_all_not_possible/no-second-collateral");
+            return;
+        }
+        let c2 = pick(r, &c2s);
+        let p2 = unit_usd_low(w, c2).unwrap_or(1.0);
+        let pd = unit_usd_low(w, lev.db).filter(|p| *p > 0.0);
+        let worth = limit as f64 * pick(r, &[2.0f64, 1.5, 4.0]) + 2.0;
+        let amt2 = (worth / p2) as u64 + 1;
+        let auth = w.auth_of(lev.acct);
+        w.mint_to(w.banks[c2].mint, w.ta_of(lev.acct, c2), amt2).await;
+        let i = w.ix_deposit(lev.acct, c2, auth.pubkey(), w.ta_of(lev.acct, c2), amt2, None);
+        let od = w.exec(m, &[i], &[&auth]).await;
+        if !od.ok() {
+            m.r.count(&format!("scen.deleverage_withdraw_all_not_possible/deposit-{}", od.custom_code().map(|c| c.to_string()).unwrap_or_else(|| "other".into())));
+            return;
+        }
+        w.chain.advance(pick(r, &[86_400i64, 90_000]));
+        w.refresh_oracles();
+        let ta_c2 = w.new_token_account(w.banks[c2].mint, risk.pubkey(), 0).await;
+        let risk_metas = w.risk_metas(lev.acct, None, None);
+        let mut rem = w.mint_prefix(c2);
+        rem.extend(risk_metas.clone());
+        let rp = pd.map(|pd| (worth / pd) as u64 + 1).unwrap_or(u64::MAX).min(lev.borrowed / 2 + 1);
+        let junk_amount = pick(r, &[0u64, 0, 1, u64::MAX]);
+        let ixs = vec![
+            ix::start_deleverage(gk, acct, risk.pubkey(), risk_metas.clone()),
+            ix::withdraw(gk, acct, risk.pubkey(), w.banks[c2].key, ta_c2, w.token_program_of_bank(c2), junk_amount, Some(true), rem),
+            ix::repay(gk, acct, risk.pubkey(), w.banks[lev.db].key, ta_d, w.token_program_of_bank(lev.db), rp, None, w.mint_prefix(lev.db)),
+            ix::end_deleverage(gk, acct, risk.pubkey(), w.risk_metas(lev.acct, None, Some(c2))),
+        ];
+        let o = w.exec(m, &ixs, &[&risk]).await;
+        m.r.count("scen.deleverage_withdraw_all_above_limit_attempts");
+        m.r.count(&if o.ok() { "scen.deleverage_withdraw_all_above_limit_committed".to_string() } else { format!("scen.deleverage_withdraw_all_above_limit_rejected/{}", o.custom_code().map(|c| c.to_string()).unwrap_or_else(|| "other".into())) });
     }
 }
 
